@@ -332,6 +332,8 @@ def label_specs(ctx, nports):
         'list-bdf-k': [{'bdf': [bdf(p, 2 + i) for i in range(3 + p)], 'mac': [mac(p, 2 + i) for i in range(3 + p)],
                         'vlan': [str(1001 + i) for i in range(3 + p)]} for p in range(nports)],
         'list-bdf-only': [{'bdf': [bdf(p, 1 + i) for i in range(2 + 2 * p)]} for p in range(nports)],
+        # what every port has in common, passed as ONE Labels object for all of them
+        'one-object-for-all-ports': [{'vlan_range': '1-4096'} for p in range(nports)],
     }
     if nports:
         rng = ctx.rng
@@ -436,6 +438,9 @@ def judge_component(ctx, entries, args, catalog=None):
         kw['interface_node_ids'] = list(args['ids'])
     if args.get('labels') is not None:
         kw['interface_labels'] = [Labels(**l) for l in args['labels']]
+        if args['labels_shape'] == 'one-object-for-all-ports' and args['labels']:
+            kw['interface_labels'] = [kw['interface_labels'][0]] * len(args['labels'])
+            ctx.count('comp:one-labels-object-for-all-ports')
     if args.get('ns_id') is not None:
         kw['ns_node_id'] = args['ns_id']
     if args.get('parent') is not None:
@@ -446,6 +451,8 @@ def judge_component(ctx, entries, args, catalog=None):
         ctx.count('comp:with-ids' if args.get('ids') is not None else 'comp:without-ids')
         ctx.count({'none': 'comp:no-labels', 'mac-only': 'comp:labels-mac-only',
                    'scalar-bdf': 'comp:labels-scalar-bdf'}.get(args['labels_shape'], 'comp:labels-list-bdf'))
+    keep = {k: list(kw[k]) for k in ('interface_node_ids', 'interface_labels') if k in kw}
+    labels_before = [l.to_json() for l in kw.get('interface_labels', [])]
     try:
         cs = (catalog or cc.ComponentCatalog()).generate_component(**kw)
     except Exception as e:
@@ -460,6 +467,39 @@ def judge_component(ctx, entries, args, catalog=None):
     exp = expected_tree(entry, args)
     obs = observed_tree(cs)
     w['observed'] = obs
+    # the caller's argument lists are the caller's: still what was passed, and good for the same call again
+    for k, was in keep.items():
+        ctx.count('clause:argument-lists-untouched')
+        if len(kw[k]) != len(was) or any(a is not b for a, b in zip(kw[k], was)):
+            ctx.violation(f'C18/component-argument-list-changed:{k}', f'generate_component leaves the list passed as {k} as it was',
+                          dict(w, before=len(was), after=len(kw[k])))
+            return
+    if [l.to_json() for l in kw.get('interface_labels', [])] != labels_before:
+        ctx.violation('C18/component-argument-labels-changed', 'generate_component leaves the Labels objects it was given as they were',
+                      dict(w, before=labels_before, after=[l.to_json() for l in kw['interface_labels']]))
+        keep = {}
+    if keep:
+        ctx.count('clause:same-arguments-again')
+        try:
+            obs2 = observed_tree((catalog or cc.ComponentCatalog()).generate_component(**kw))
+        except Exception as e:
+            ctx.violation('C18/component-same-arguments-again-raises', 'the same call made again with the same argument objects '
+                          f'gives the same component, not {type(e).__name__}: {e}', w)
+            return
+        def _mask(o):
+            # ids the caller did not supply are drawn afresh by every call
+            o = json.loads(json.dumps(o))
+            for sv in o['services']:
+                if args.get('ns_id') is None:
+                    sv['node_id'] = None
+                for i in sv['interfaces']:
+                    if args.get('ids') is None:
+                        i['node_id'] = None
+            return o
+        if _mask(obs2) != _mask(obs):
+            ctx.violation('C18/component-same-arguments-again-differs', 'the same call made again with the same argument objects '
+                          'gives the same component', dict(w, second=obs2))
+            return
     for f in ('type', 'model', 'details', 'name'):
         ctx.count('clause:component-' + f)
         if obs[f] != exp[f]:
